@@ -91,13 +91,16 @@ theorem reads_cons_append (op : Op) (a : List Op) (d : Dec) :
     Reads d (op :: a) ↔ Reads d [op] ∧ Reads (after d [op]) a := by
   simp [Reads, after]
 
-theorem after_cons (op : Op) (a : List Op) (d : Dec) : after d (op :: a) = after (after d [op]) a := rfl
+theorem after_cons (op : Op) (a : List Op) (d : Dec) : after d (op :: a) = after (after d [op]) a :=
+  after_append [op] a d
 
 /-- Normal form of `after`: one operation at a time.  (Proofs normalise both sides with this and
     `after_append` instead of appealing to definitional equality: with a concrete table inside the
-    operation the kernel would start evaluating `ec_dec_icdf`.) -/
+    operation the kernel would start evaluating `ec_dec_icdf`.  For the same reason the proof term is not
+    `rfl`: `simp` would then use the lemma definitionally.) -/
 theorem after_cons_cons (op op2 : Op) (rest : List Op) (d : Dec) :
-    after d (op :: op2 :: rest) = after (after d [op]) (op2 :: rest) := rfl
+    after d (op :: op2 :: rest) = after (after d [op]) (op2 :: rest) :=
+  after_append [op] (op2 :: rest) d
 
 /-- `n` symbols from one table. -/
 theorem symLoop_spec (tbl : List Nat) : ∀ (xs : List Nat) (d : Dec), Reads d (encSyms tbl xs) →
@@ -115,7 +118,7 @@ theorem symLoop_spec (tbl : List Nat) : ∀ (xs : List Nat) (d : Dec), Reads d (
     have := ih _ h.2
     simp only [encSyms] at this
     rw [this]
-    rfl
+    exact Prod.ext rfl (after_cons _ _ _).symm
 
 /-! ### Legality -/
 
